@@ -108,20 +108,25 @@ def run_while(E, n, st):
 
 def _unroll_while(E, n, st):
     outs = []
-    work = [(st, 0)]
+    work = [(st, 0, 0)]
     while work:
-        s0, k = work.pop()
+        s0, k, forks = work.pop()
         sink = []
         for s1, c in E.ev(n.test, s0, sink):
             a, b = E.split(s1, E.truth(c, s1), label='while@%d' % n.lineno)
             if b is not None:
                 outs.append(('fall', b))
             if a is not None:
-                if k >= E.unroll_limit:
-                    raise Unsupported('loop at line %d needs an invariant (unrolled %d times and still feasible)' % (n.lineno, k))
+                f2 = forks + (1 if b is not None else 0)
+                if k >= E.unroll_limit or f2 > E.options.get('fork_unroll_limit', 6):
+                    # the trip count is not decided by the path condition: the paths explored so far are kept (their obligations
+                    # are checked: a violation found there is a violation), the remaining ones make the function undecided
+                    E.truncated.append('loop at line %d needs an invariant (unrolled %d times, %d undecided guards, still feasible)'
+                                       % (n.lineno, k, f2))
+                    continue
                 for o in E.run_block(n.body, a):
                     if o[0] in ('fall', 'cont'):
-                        work.append((o[1], k + 1))
+                        work.append((o[1], k + 1, f2))
                     elif o[0] == 'break':
                         outs.append(('fall', o[1]))
                     else:
@@ -395,5 +400,5 @@ def _check_unhavocked_writes(E, st, start, written_fields, explicit, where, oid_
         elif isinstance(env.get(h), Ref) and st.heap[env[h].oid].kind in ('acc', 'alist'):
             allowed.add((env[h].oid, '<items>'))       # havocked as an accumulator before the invariant was assumed
     for (oid, fld) in st.writes[start:]:
-        if (oid, fld) not in allowed and oid < oid_floor:
+        if (oid, fld) not in allowed and 0 <= oid < oid_floor:          # oid -1 = lock events of `with` (no heap location)
             raise Unsupported('%s: body writes %s of object %d which the loop spec does not havoc' % (where, fld, oid))
